@@ -150,8 +150,17 @@ def run(tier, seed, build_, res):
         # positions of marker words in the source
         marks = [(m.start(), m.end()) for m in MARK.finditer(src)]
         body0 = marks[0][0] if marks else 0
+        # characters of an error mark are placed by latex_error (a mark near
+        # the end of the text is split, its tail pinned to the last
+        # character): C08 and C01 speak about them, not C04
+        errm = set()
+        em = parameters.Parameters('en').mark_latex_error
+        j = txt.find(em)
+        while j >= 0:
+            errm.update(range(j, j + len(em)))
+            j = txt.find(em, j + 1)
         for i, (ch, q) in enumerate(zip(txt, pos)):
-            if ch.isspace():
+            if ch.isspace() or i in errm:
                 continue
             o = q - 1
             if o < body0:
@@ -170,7 +179,7 @@ def run(tier, seed, build_, res):
             if m0 < 0 or m1 < 0:
                 continue
             for i in range(m0 + len('Wm%dk' % k), m1):
-                if not txt[i].isspace() and not (a < pos[i] <= b):
+                if not txt[i].isspace() and i not in errm and not (a < pos[i] <= b):
                     return ('use %d of %r: character %r maps to %d, outside its '
                             'span %d..%d' % (k, src[a:b], txt[i], pos[i], a + 1, b))
             cur = m0 + 1
